@@ -31,24 +31,45 @@ def reasonName : Reason → String
 
 def realBytes (f : Flow) : Nat := (f.tr.buf.map (fun c => c.2.length)).sum
 
+def showIvs (s : Ack.ISet) : String :=
+  if s.isEmpty then "-" else joinWith "," (s.map (fun i => s!"{i.lo}-{i.hi}"))
+
 def showStatus (s : Stream) : String :=
   let c := s.client; let v := s.server
   s!"{showSid s.sid} partial={b01 s.isPartial} cst={stateName c.state} sst={stateName v.state} " ++
   s!"cseq={c.tr.seq} sseq={v.tr.seq} cch={c.tr.buf.length} sch={v.tr.buf.length} cb={c.tr.total} sb={v.tr.total} " ++
   s!"real={realBytes c + realBytes v} cpl={c.tr.payload.length} spl={v.tr.payload.length} " ++
   s!"cmss={c.mss} smss={v.mss} csack={b01 c.sackPermitted} ssack={b01 v.sackPermitted} " ++
-  s!"created={s.createTime} seen={s.lastSeen}"
+  s!"created={s.createTime} seen={s.lastSeen} ctrk={b01 c.ackTracking} strk={b01 v.ackTracking} " ++
+  s!"cak={c.ackTr.ack} sak={v.ackTr.ack} civn={c.ackTr.ivs.length} sivn={v.ackTr.ivs.length} " ++
+  s!"civ={showIvs c.ackTr.ivs} siv={showIvs v.ackTr.ivs} rec={b01 (c.recEnd.isSome || v.recEnd.isSome)}"
 
-def showEv {κ} (ooo : Bool) : Ev κ → Option String
-  | .new _ sid p => some s!"new {showSid sid} partial={b01 p}"
-  | .ooo _ sid c q d => if ooo then some s!"{if c then "cooo" else "sooo"} {showSid sid} seq={q} len={d.length} h={fnv d}" else none
-  | .data _ sid c pl => some s!"{if c then "cdata" else "sdata"} {showSid sid} len={pl.length} h={fnv pl}"
-  | .closed _ sid => some s!"closed {showSid sid}"
-  | .term _ sid r ch by_ => some s!"term {showSid sid} {reasonName r} chunks={ch} bytes={by_}"
+/-- `ooo`: the out-of-order callbacks are installed; `cbs`: the stream callbacks are installed at all (they are installed
+    in the new-stream callback: without one only the follower's termination callback is observable) -/
+def showEv {κ} (ooo cbs : Bool) : Ev κ → Option String
+  | .new _ sid p => if cbs then some s!"new {showSid sid} partial={b01 p}" else none
+  | .ooo _ sid c q d => if ooo && cbs then some s!"{if c then "cooo" else "sooo"} {showSid sid} seq={q} len={d.length} h={fnv d}" else none
+  | .data _ sid c pl => if cbs then some s!"{if c then "cdata" else "sdata"} {showSid sid} len={pl.length} h={fnv pl}" else none
+  | .closed _ sid => if cbs then some s!"closed {showSid sid}" else none
+  | .term _ sid r ch by_ sk => some s!"term {showSid sid} {reasonName r} chunks={ch} bytes={by_} sacked={sk}"
 
 def parseCfg (ws : List String) : Cfg × Bool :=
   ({ attach := kvNat ws "attach" 0 == 1, maxChunks := kvNat ws "maxc" 512, maxBytes := kvNat ws "maxb" 3145728,
-     keepAlive := kvNat ws "ka" 300000000, acl := kvNat ws "acl" 1 == 1 }, kvNat ws "ooo" 0 == 1)
+     keepAlive := kvNat ws "ka" 300000000, acl := kvNat ws "acl" 1 == 1, maxSacked := kvNat ws "maxs" 1024,
+     ackC := (kvNat ws "ack" 0) % 2 == 1, ackS := (kvNat ws "ack" 0) / 2 % 2 == 1, useSack := kvNat ws "usesack" 0 == 1,
+     ignC := (kvNat ws "ign" 0) % 2 == 1, ignS := (kvNat ws "ign" 0) / 2 % 2 == 1, cbSet := kvNat ws "nocb" 0 != 1,
+     recovery := ((kvOf ws "rec").bind (·.toNat?)).map (· % 4294967296) },
+   kvNat ws "ooo" 0 == 1)
+
+/-- the SACK option of a `pkt` line: `sk=<-|edge,..>` is `TCP::sack(edges)` (then read back through the option bytes),
+    `skraw=<hex>` is an option with arbitrary data -/
+def parseSack (rest : List String) : Option Ack.SackOpt :=
+  match kvOf rest "sk", kvOf rest "skraw" with
+  | some l, _ =>
+    if l == "-" then some (Ack.decodeSack (Ack.encodeEdges []))
+    else ((l.splitOn ",").mapM String.toNat?).map (fun es => Ack.decodeSack (Ack.encodeEdges (es.map wrap32)))
+  | none, some h => (parseHex h).map Ack.decodeSack
+  | none, none => some .absent
 
 def parsePkt (ws : List String) : Option Pkt :=
   match ws with
@@ -62,13 +83,14 @@ def parsePkt (ws : List String) : Option Pkt :=
     let seq ← seq.toNat?
     let ack ← ack.toNat?
     let payload ← if pl == "none" then some none else (parseHex pl).map some
+    let sack ← parseSack rest
     pure { v6 := fam == "v6", src := src, sport := sport, dst := dst, dport := dport, flags := flags % 4096,
            seq := seq % 4294967296, ack := ack % 4294967296, payload := payload,
-           mss := (kvOf rest "mss").bind (·.toNat?), sackOk := rest.contains "sack", ts := ts }
+           mss := (kvOf rest "mss").bind (·.toNat?), sackOk := rest.contains "sack", ts := ts, sack := sack }
   | _ => none
 
 structure MState where
-  cfg : Cfg := ⟨false, 512, 3145728, 300000000, true⟩
+  cfg : Cfg := { attach := false, maxChunks := 512, maxBytes := 3145728, keepAlive := 300000000, acl := true }
   ooo : Bool := false
   F : Model := Follower.empty
 
@@ -80,7 +102,7 @@ def findStatus (F : Model) (v6 : Bool) (a ap b bp : Nat) : String :=
 def step (st : MState) (line : String) : MState × String :=
   let ws := words line
   match ws with
-  | "case" :: rest => let (c, o) := parseCfg rest; ({ cfg := c, ooo := o, F := Follower.empty }, "case")
+  | "case" :: rest => let (c, o) := parseCfg rest; ({ cfg := c, ooo := o, F := Follower.empty }, s!"case maxs={c.maxSacked}")
   | "decl" :: _ => (st, "decl")
   | ["find", fam, a, ap, b, bp] =>
     match hexToNat a, ap.toNat?, hexToNat b, bp.toNat? with
@@ -89,8 +111,8 @@ def step (st : MState) (line : String) : MState × String :=
   | "pkt" :: _ =>
     match parsePkt ws with
     | some p =>
-      let (F', evs) := Model.step st.cfg st.F p
-      let es := evs.filterMap (showEv st.ooo)
+      let (F', evs, threw) := Model.stepX st.cfg st.F p
+      let es := evs.filterMap (showEv st.ooo st.cfg.cbSet) ++ (if threw then ["exc callback_not_set"] else [])
       ({ st with F := F' }, (if es.isEmpty then "-" else joinWith ";" es) ++ " | " ++ findStatus F' p.v6 p.src p.sport p.dst p.dport)
     | none => (st, "bad-op")
   | _ => (st, "bad-op")
@@ -131,8 +153,16 @@ def parseObsEv (e : String) : Option ObsEv :=
   | "term" :: sid :: r :: rest => do
     let sid ← parseSid sid; let r ← parseReason r
     let c ← (kvOf rest "chunks").bind (·.toNat?); let b ← (kvOf rest "bytes").bind (·.toNat?)
-    pure (.term sid r c b)
+    let sk ← (kvOf rest "sacked").bind (·.toNat?)
+    pure (.term sid r c b sk)
+  | ["exc", n] => some (.exc n)
   | _ => none
+
+def parseIvs (s : String) : Option (List (Nat × Nat)) :=
+  if s == "-" then some [] else
+  (s.splitOn ",").mapM (fun item => match item.splitOn "-" with
+    | [a, b] => do let a ← a.toNat?; let b ← b.toNat?; pure (a, b)
+    | _ => none)
 
 /-- `none` = unparsable, `some none` = no stream -/
 def parseStatus (s : String) : Option (Option ObsStatus) :=
@@ -143,7 +173,11 @@ def parseStatus (s : String) : Option (Option ObsStatus) :=
     let sid ← parseSid sid
     let g := fun k => (kvOf rest k).bind (·.toNat?)
     let cch ← g "cch"; let sch ← g "sch"; let cb ← g "cb"; let sb ← g "sb"; let real ← g "real"
-    pure (some ⟨sid, cch, sch, cb, sb, real⟩)
+    let ctrk ← g "ctrk"; let strk ← g "strk"; let cak ← g "cak"; let sak ← g "sak"; let civn ← g "civn"; let sivn ← g "sivn"
+    let civ ← kvOf rest "civ"; let siv ← kvOf rest "siv"
+    pure (some { sid := sid, cch := cch, sch := sch, cb := cb, sb := sb, real := real,
+                 cak := { tracking := ctrk == 1, ack := cak, ivn := civn, ivs := parseIvs civ },
+                 sak := { tracking := strk == 1, ack := sak, ivn := sivn, ivs := parseIvs siv } })
   | _ => none
 
 def showVerdict : Verdict → String
@@ -154,7 +188,11 @@ def specStep (o : Oracle) (line : String) : Oracle × String :=
   | [op, out] =>
     let ws := words op
     match ws with
-    | "case" :: rest => ({ cfg := (parseCfg rest).1 }, "ok")
+    | "case" :: rest =>
+      let c := (parseCfg rest).1
+      -- the limit the check read from the source is the one compiled into the implementation
+      if out.trimAscii.toString == s!"case maxs={c.maxSacked}" then ({ cfg := c }, "ok")
+      else ({ cfg := c, broken := true }, "violates limit-constant DEFAULT_MAX_SACKED_INTERVALS is not what the check read from the source")
     | ["decl", fam, a, ap, b, bp, isn, hex] =>
       match hexToNat a, ap.toNat?, hexToNat b, bp.toNat?, isn.toNat?, parseHex hex with
       | some a, some ap, some b, some bp, some isn, some d =>
